@@ -617,7 +617,7 @@ Lemma explain_aliased_eq : forall e' alias,
         bind (oexp operand) (fun c =>
         Ok (function_node (unary_operator_to_function op ++ alias_sfx a) [c])) in
       match op, operand with
-      | UMinus, Some (ELit v _) =>
+      | UMinus, Some (ELit v false) =>
           match aliased_negated_literal v a with Some r => r | None => generic end
       | _, _ => generic
       end
@@ -642,9 +642,12 @@ Proof.
       destruct op; [|eexists; reflexivity].
       destruct operand as [x|]; [|eexists; reflexivity].
       destruct x; try (eexists; reflexivity).
-      destruct v; cbn [aliased_negated_literal]; try (eexists; reflexivity).
-      cbn [neg_float] in Hnf.
-      destruct (v <=? 9223372036854775808) eqn:E; [eexists; reflexivity|]. exfalso. lia.
+      destruct paren; [eexists; reflexivity|].
+      unfold aliased_negated_literal.
+      destruct v; cbn [negated_literal]; try (eexists; reflexivity).
+      + destruct (v =? 0); cbn [bind]; eexists; reflexivity.
+      + cbn [neg_float] in Hnf. destruct (v =? 0); [cbn [bind]; eexists; reflexivity|].
+        destruct (v <=? 9223372036854775808) eqn:E; [cbn [bind]; eexists; reflexivity|]. exfalso. lia.
     - (* EFunc *)
       cbn [aliased_extra] in Hx. cbn [wf_expr printable_expr] in Hw, Hp. rewrite printable_args in Hp.
       apply andb_prop in Hp. destruct Hp as [_ Hp].
